@@ -304,6 +304,43 @@ def judge(ctx, dec, wire, klass, wellformed=False, steps=True):
         return
     for d in diffs:
         ctx.report(f'field-differs:{dec}:{d}', f'accepted packet: extracted {d} differs from the strict reading', w)
+    if not diffs and (wellformed or ctx.evaluations % 7 == 0):
+        # the result belongs to the caller: it is edited in place (names extended, lists emptied, buffers overwritten), then the same
+        # octets are decoded again - a decoder is a function of its input, whatever became of what it handed out earlier
+        scribble_result(impl_out)
+        try:
+            again = impl_fn(wire)
+            d2 = cmp_fn(again, ref_out)
+        except Exception as e:   # noqa
+            d2 = [f'raises-{type(e).__name__}']
+        ctx.event('decoded-again-after-editing-the-first-result')
+        for d in d2 or []:
+            ctx.report(f'decoder-result-depends-on-history:{dec}:{d}', f'the same octets decoded a second time, after the caller edited the first result in place, '
+                       f'give another {d}', w)
+
+
+def scribble_result(x, depth=0):
+    if depth > 5 or x is None or isinstance(x, (bytes, str, int, float, memoryview)):
+        return
+    if isinstance(x, bytearray):
+        x[:] = bytes(len(x))
+        return
+    if isinstance(x, dict):
+        for v in list(x.values()):
+            scribble_result(v, depth + 1)
+        return
+    if isinstance(x, (list, tuple)):
+        for v in x:
+            scribble_result(v, depth + 1)
+        if isinstance(x, list):
+            if x and depth > 0 and len(x) % 2:
+                del x[0]
+            x.append(b'\x08\x08scribble')
+        return
+    d = getattr(x, '__dict__', None)
+    if isinstance(d, dict):
+        for v in list(d.values()):
+            scribble_result(v, depth + 1)
 
 
 class CountingBytes(bytes):
@@ -526,6 +563,11 @@ def run(ctx):
             wire = rc.enc_var(t) + rc.enc_var(len(body) + rng.choice([0, 0, 0, 1, -1, 300])  if len(body) else 0) + body
             klass = 'random-in-outer'
         judge(ctx, dec, wire, klass, steps=(i % 10 == 0))
+        if i % 1500 == 1499:
+            # acceptance is a property of the octets, not of what the process decoded (and refused) before
+            dv, wv = corp[(i // 1500) % len(corp)]
+            judge(ctx, dv, wv, 'valid-after-many-refusals', wellformed=True, steps=False)
+            ctx.event('valid-packet-amid-refusals')
     # elements of types the format knows elsewhere (or knew in an earlier revision: 0x1f Delegation) at every gap inside a ForwardingHint
     for nh in (0, 1, 2):
         iw = rc.make_interest(gen.simple_name(rng), nonce=7, fwd_hint=[gen.simple_name(rng, 1, 2) for _ in range(nh)] if nh else [], app_param=None)[0] \
@@ -583,7 +625,12 @@ def run(ctx):
         if dec in TL_DECODERS:
             b0, vs0, ve0 = rc.outer(wire, TL_DECODERS[dec][1])
             judge_copy(ctx, dec, b0[vs0:ve0], 'valid')
+    for dec, wire in corp:
+        judge(ctx, dec, wire, 'valid-at-the-end-of-the-run', wellformed=True, steps=False)
+        ctx.event('valid-packet-at-the-end-of-the-run')
     ctx.need_event('step-monitored')
+    ctx.need_event('valid-packet-amid-refusals')
+    ctx.need_event('decoded-again-after-editing-the-first-result')
     ctx.need_event('certificate-with-additional-description')
     ctx.need_event('copy-monitored')
     for dec in decs:
